@@ -1,5 +1,6 @@
 import Chewing.Proofs.ConvSimple
 import Chewing.Proofs.ConvDisplay
+import Chewing.Proofs.ConvGlue
 /-!
 Per-interval facts of the simple engine's output.
 -/
@@ -81,6 +82,66 @@ theorem simple_len {d : Dict} {c : Composition} (hc : CompValid c) (hw : HasWord
       have := hwf _ _ p hpl
       simp [simpleInterval, hp, this]
   · exact (hc.sels iv hs).textLen
+
+theorem simple_mem_cases' {d : Dict} {c : Composition} {iv : Interval} (h : iv ∈ simpleList d c) :
+    (∃ sym i, c.symbols[i]? = some sym ∧ Free c i ∧ iv = simpleInterval d sym i) ∨ iv ∈ c.selections := by
+  rcases List.mem_append.mp h with h | h
+  · obtain ⟨sym, i, h1, h2, rfl⟩ := mem_simpleSingles h
+    exact Or.inl ⟨sym, i, List.mem_zipIdx_iff_getElem?.mp h1, h2, rfl⟩
+  · exact Or.inr h
+
+/-- an interval of the simple engine carries one character per symbol, or it is the fallback interval -/
+theorem simple_len_or_spelled {d : Dict} {c : Composition} (hc : CompValid c) (hwf : WellFormed d) {iv : Interval}
+    (h : iv ∈ simpleList d c) : iv.text.length = iv.stop - iv.start ∨ Spelled d Strategy.standard c iv := by
+  rcases simple_mem_cases' h with ⟨sym, i, hi, hfree, rfl⟩ | hs
+  · cases sym with
+    | chr cp => exact Or.inl (by simp [simpleInterval])
+    | syl k =>
+      cases hf : d.first [k] Strategy.standard with
+      | none =>
+        right
+        have hl : d.lookup [k] Strategy.standard = [] := by
+          unfold Dict.first at hf
+          exact List.head?_eq_none_iff.mp hf
+        exact ⟨i, k, hi, hl, hfree, by simp [simpleInterval, hf]⟩
+      | some p =>
+        left
+        have hp : p ∈ d.lookup [k] Strategy.standard := List.mem_of_mem_head? (by simpa [Dict.first] using hf)
+        have := hwf _ _ p hp
+        simp [simpleInterval, hf, this]
+  · exact Or.inl (hc.sels iv hs).textLen
+
+theorem simple_inv3 {d : Dict} {c : Composition} (hc : CompValid c) (hwf : WellFormed d) {iv : Interval}
+    (h : iv ∈ simpleList d c) : IvInv3 d Strategy.standard c iv := by
+  have key := simple_len_or_spelled hc hwf h
+  refine ⟨?_, fun _ => key⟩
+  rcases key with hl | hs
+  · exact SpelledText.plain (Nat.le_of_lt (simpleList_bounds hc iv h).2.1) hl
+  · exact hs.shape
+
+/-- provenance of the simple engine's intervals without `HasWord` -/
+theorem simple_provS {d : Dict} {c : Composition} {iv : Interval} (h : iv ∈ simpleList d c) :
+    ProvS d Strategy.standard c iv := by
+  rcases simple_prov h with hp | _
+  · exact ProvS.base hp
+  · rcases simple_mem_cases' h with ⟨sym, i, hi, hfree, rfl⟩ | hs
+    · cases sym with
+      | chr cp => exact ProvS.base (Prov.chr hi)
+      | syl k =>
+        cases hf : d.first [k] Strategy.standard with
+        | none =>
+          have hl : d.lookup [k] Strategy.standard = [] := by
+            unfold Dict.first at hf
+            exact List.head?_eq_none_iff.mp hf
+          exact ProvS.spell ⟨i, k, hi, hl, hfree, by simp [simpleInterval, hf]⟩
+        | some p =>
+          rcases simple_prov h with hp | ⟨k', hi', hf', _⟩
+          · exact ProvS.base hp
+          · rw [(simpleInterval_range d (Sym.syl k) i).1, hi] at hi'
+            cases hi'
+            rw [hf] at hf'
+            cases hf'
+    · exact ProvS.base (Prov.sel (b := iv.isPhrase) hs)
 
 theorem simple_char {d : Dict} {c : Composition} (hc : CompValid c) {i cp : Nat}
     (h : c.symbols[i]? = some (Sym.chr cp)) :
